@@ -22,6 +22,8 @@ MODULE_MODEL_IMPORTS["AlgoTravFront"] = ["PyTravFront"]
 
 VARKW = {}           # lean name -> {"args": [names], "kwargs": [names]}: what `*args` / `**kwargs` hold in this instantiation
 FACTORY_INST = {}    # lean name of an outer function -> {name bound by `name = wrap(name)`: lean name of the closure's translation}
+FRONT_CALLERS = set()  # lean names of functions whose `tree.traverse(enter=F, leave=G)` with NESTED closures F, G calls the TRANSLATED Tree.traverse (H4)
+                     # instead of the translator's built-in reading of that call
 INSTANCES = {}       # python call text of a function / method name of a tree  ->  lean names of its instantiations
 TREE_INSTANCES = {}
 
@@ -279,6 +281,8 @@ def _h_call_with_callbacks(tr, e, want):
             return "absent"
         if isinstance(x, ast.Name) and x.id in tr.spec.callbacks:
             return "direct"
+        if isinstance(x, ast.Name) and x.id in tr.spec.closures and tr.spec.lean in FRONT_CALLERS:
+            return "nested"
         return None
     kinds = {n: kind(kw[n]) for n in cbnames if n in kw}
     if not kinds or any(k is None for k in kinds.values()):
@@ -287,7 +291,7 @@ def _h_call_with_callbacks(tr, e, want):
     for n in cbnames:
         if n not in kw and n in names_src and not (n in dfl and isinstance(dfl[n], ast.Constant) and dfl[n].value is None):
             raise Untranslatable(f"{tr.spec.lean}: `{f}` is called without `{n}`, whose default is not None")
-    present = [n for n in cbnames if kinds.get(n) in ("closure", "direct")]
+    present = [n for n in cbnames if kinds.get(n) in ("closure", "direct", "nested")]
     if not present:
         return None
     if len({kinds[n] for n in present}) != 1:
@@ -334,7 +338,7 @@ def _h_call_with_callbacks(tr, e, want):
             c = tr.coerce(c, t, pt)
         steps += s0; codes.append(c)
     # the callbacks, in the order of the callee's binders
-    cbcodes, subst_unit, caps = [], {}, None
+    cbcodes, subst_unit, caps, with_cbs = [], {}, None, True
     for n, (binder, nargs, rty) in callee.callbacks.items():
         if n not in present:
             if nargs != 2:
@@ -346,6 +350,16 @@ def _h_call_with_callbacks(tr, e, want):
             if _cb_type(mine[0]) != _cb_type(binder) or mine[1:] != (nargs, rty):
                 raise Untranslatable(f"{tr.spec.lean}: callback `{kw[n].id}` : {mine[0]} passed as `{n}` {binder}")
             cbcodes.append(mine[0].split()[0].strip("("))
+        elif kinds[n] == "nested":
+            # a nested function of this function (translated separately, over its captured variables; it calls no callback of this function)
+            cl = by_lean_global[tr.spec.closures[kw[n].id]]
+            if cl.callbacks or cl.fparams != tr.spec.fparams or cl.tparams != tr.spec.tparams or cl.num_tparams != tr.spec.num_tparams or len(cl.params) != nargs:
+                raise Untranslatable(f"{tr.spec.lean}: closure `{cl.lean}` passed as `{n}` {binder}")
+            if caps is not None and caps != cl.captures:
+                raise Untranslatable(f"{tr.spec.lean}: the closures capture different variables")
+            caps, with_cbs = cl.captures, False
+            subst_unit[rty] = cl.ret                   # the callee's value type is the closure's result type
+            cbcodes.append(f"(Py.wrap2 ({cl.lean} {tr.bargs_nofuel}))" if tr.bargs_nofuel else f"(Py.wrap2 {cl.lean})")
         else:
             cl, user = fnvals[kw[n].id]
             (p, (cbinder, cn, crty)), = cl.callbacks.items()
@@ -363,10 +377,11 @@ def _h_call_with_callbacks(tr, e, want):
     if caps is None:
         steps.append(f"Py.bind ({callee.lean} {' '.join(cbcodes)} {fuel}{' '.join(codes)} v.cbs) fun {n} => let v := {{ v with cbs := {n}.1 }};")
     else:
-        st = list(caps) + ["cbs"]
-        st0 = "(" + ", ".join(f"v.{lname(c)}" for c in st) + ")"
+        st = list(caps) + (["cbs"] if with_cbs else [])
+        st0 = "(" + ", ".join(f"v.{lname(c)}" for c in st) + ")" if st else "()"
         back = ", ".join(f"{lname(c)} := {proj(n + '.1', k, len(st))}" for k, c in enumerate(st))
-        steps.append(f"Py.bind (Py.unwrapCb ({callee.lean} {' '.join(cbcodes)} {fuel}{' '.join(codes)} (some {st0}))) fun {n} => let v := {{ v with {back} }};")
+        upd = f" let v := {{ v with {back} }};" if st else ""
+        steps.append(f"Py.bind (Py.unwrapCb ({callee.lean} {' '.join(cbcodes)} {fuel}{' '.join(codes)} (some {st0}))) fun {n} =>{upd}")
     return steps, f"{n}.2", rty
 
 
